@@ -140,6 +140,13 @@ func registerFunctions() {
 		}
 		return nil, fmt.Errorf("vf_err: injected error")
 	})
+	genql.RegisterImmediateFunction("VF_Imm_Mixed", func(q *genql.Query, cur genql.Map, o *genql.FunctionOptions, args []any) (any, error) {
+		callCount.Add(1)
+		if len(args) != 1 {
+			return nil, fmt.Errorf("vf_imm_mixed arity")
+		}
+		return args[0], nil
+	})
 	genql.RegisterImmediateFunction("vf_imm", func(q *genql.Query, cur genql.Map, o *genql.FunctionOptions, args []any) (any, error) {
 		callCount.Add(1)
 		if len(args) != 1 {
